@@ -3,6 +3,7 @@ package mon
 import (
 	"fmt"
 	"math/rand"
+	"strconv"
 	"strings"
 
 	"github.com/microcosm-cc/bluemonday"
@@ -14,7 +15,53 @@ import (
 
 // C17 — a policy is its rule set: independent of call order, case and other instances.
 
-func init() { Registry["C17"] = runC17 }
+func init() {
+	Registry["C17"] = runC17
+	childModes["c17"] = func(args []string) int {
+		if len(args) != 3 {
+			return core.ExitInconclusive
+		}
+		seed, _ := strconv.ParseInt(args[0], 10, 64)
+		ctx := core.NewCtx("C17", args[1], seed)
+		if args[2] == "sequential" {
+			ctx.Workers = 1
+		}
+		c17Work(ctx, args[2])
+		fmt.Printf("\nVMON-CHILD-STATE %s\n", ctx.ExportState())
+		return 0
+	}
+}
+
+// runC17 runs the work in two child processes: first the independence stream alone on one
+// goroutine (so that a table shared between instances shows up as a changed output), then
+// everything on all cores. Building independent policies on different goroutines is legal;
+// if that crashes the process (runtime "concurrent map" throw) the instances share state.
+func runC17(ctx *core.Ctx) {
+	c17Describe(ctx)
+	if ctx.Replaying {
+		c17Work(ctx, "all")
+		return
+	}
+	for _, part := range []string{"sequential", "parallel"} {
+		res := core.RunChild("c17", []string{fmt.Sprint(ctx.Seed), ctx.Tier, part}, 0, ctx.N(900, 4000))
+		merged := false
+		if j := strings.LastIndex(string(res.Stdout), "\nVMON-CHILD-STATE "); j >= 0 {
+			if ctx.MergeState([]byte(strings.TrimSpace(string(res.Stdout)[j+len("\nVMON-CHILD-STATE "):]))) == nil {
+				merged = true
+			}
+		}
+		cs := &core.Case{Ctx: ctx, Stream: "independence", Index: 0}
+		switch {
+		case res.TimedOut:
+			ctx.Inconclusive("C17 worker (" + part + ") hit the wall-clock watchdog")
+		case strings.Contains(res.Stderr, "fatal error: concurrent map"):
+			cs.Violate("C17:independence:fatal-concurrent-construction", "building and using independent policies on different goroutines crashed the process: the instances share a table\n"+core.Clip(res.Stderr, 2500), map[string]interface{}{"stderr": core.Clip(res.Stderr, 8000), "part": part})
+		case !merged:
+			ctx.Inconclusive(fmt.Sprintf("C17 worker (%s) died (exit %d, signal %q) without a result:\n%s", part, res.Exit, res.Signal, core.Clip(res.Stderr, 2000)))
+		}
+	}
+	c17Floors(ctx)
+}
 
 func isRuleOp(o spec.Op) bool {
 	switch o.K {
@@ -212,10 +259,25 @@ func c17Probes(r *rand.Rand, env *Env, n int) []string {
 	return probes
 }
 
-func runC17(ctx *core.Ctx) {
+func c17Describe(ctx *core.Ctx) {
 	ctx.Rule = "random rule sets; each is built through a canonical history and through rule-equivalent histories (permuted rule calls with switch-like calls interleaved in their relative order, upper/mixed-case names, duplicated rule calls, switches toggled before their final value, fresh regexp objects for the same pattern) and both policies sanitise conforming + hostile probe inputs; a difference is localised by replaying each variation kind alone; independence: a policy's outputs and reflection fingerprint before/after another instance (incl. UGCPolicy/StrictPolicy/NewPolicy siblings) is built, extended and used, and fresh instances created late must equal fresh instances created early; non-trivial = a probe on which the compared policies emit markup, distinct by (rule set, history, probe)"
 	ctx.Assume("switch-like calls (booleans, scheme registrations, skip/keep content, sandbox set, rewriter, helpers that contain switches) keep their relative order; only rule calls are permuted", "caller-owned slices passed to MatchingEnum are not mutated (outside the property)")
+}
+
+func c17Floors(ctx *core.Ctx) {
+	ctx.MinNontrivial(int64(ctx.N(20000, 300000)))
+	ctx.Floor("histories_compared", 1000)
+	ctx.Floor("independence_pairs", 200)
+	ctx.Floor("interleaved_constructions", 200)
+}
+
+// c17Work: part = "sequential" (independence stream only, one goroutine), "parallel"
+// (histories + independence on all cores) or "all" (replay).
+func c17Work(ctx *core.Ctx, part string) {
 	nSpec := ctx.N(500, 6000)
+	if part == "sequential" {
+		nSpec = 0
+	}
 	nHist := ctx.N(4, 6)
 	nProbe := ctx.N(120, 300)
 	ctx.Run("histories", nSpec, func(cs *core.Case) {
@@ -299,7 +361,11 @@ func runC17(ctx *core.Ctx) {
 			refUGC[p], refStrict[p], refNew[p] = u.Sanitize(p), s.Sanitize(p), n.Sanitize(p)
 		}
 	}
-	ctx.Run("independence", ctx.N(300, 3000), func(cs *core.Case) {
+	nInd := ctx.N(300, 3000)
+	if part == "sequential" {
+		nInd = ctx.N(60, 300)
+	}
+	ctx.Run("independence", nInd, func(cs *core.Case) {
 		r := cs.R
 		lc := core.LocalCounts{}
 		opsA := spec.RandomOps(r, spec.GenOpts{Styles: true})
@@ -389,8 +455,4 @@ func runC17(ctx *core.Ctx) {
 		}
 		cs.Flush(lc)
 	})
-	ctx.MinNontrivial(int64(ctx.N(20000, 300000)))
-	ctx.Floor("histories_compared", 1000)
-	ctx.Floor("independence_pairs", 200)
-	ctx.Floor("interleaved_constructions", 200)
 }
